@@ -54,3 +54,31 @@ func VerifC14BscValidatorsMapOrder() {
 }
 
 var _ sdk.Context
+
+// VerifC14BscUpdateIndependentOfTheNode (2-safety): the verdict of a BSC header update and the head it installs are a
+// function of the state, the block's context and the header - not of the executing node's wall clock or anything else it
+// reads from its environment. The same update is executed twice on the same state (the environment answers independently
+// each time: every time.Now() is a fresh instant) and compared.
+func VerifC14BscUpdateIndependentOfTheNode() {
+	w := newBscWorld(bscCfg{name: "c14clock", minVals: 2, maxVals: 2, epochs: []uint64{200}, maxPending: 1, maxRecents: 1, extraLens: []int{97}})
+	hdr := freshBscHeader("new", 97)
+	cdc := rt.Codec()
+	run := func() (bool, uint64) {
+		cctx, _ := w.ctx.CacheContext()
+		store := prefix.NewStore(cctx.KVStore(rt.StoreKey(host.StoreKey)), []byte("clients/chain-b/"))
+		cs := w.cs
+		h := hdr
+		ncs, _, err := cs.CheckHeaderAndUpdateState(cctx, cdc, store, &h)
+		if err != nil {
+			return false, 0
+		}
+		return true, ncs.GetLatestHeight().GetRevisionHeight()
+	}
+	ok1, h1 := run()
+	ok2, h2 := run()
+	rt.Reach("ran-on-two-nodes")
+	if ok1 {
+		rt.Reach("accepted-on-the-first-node")
+	}
+	rt.Assert("N5-same-verdict-and-head-on-every-node", ok1 == ok2 && h1 == h2)
+}
